@@ -170,6 +170,18 @@ Theorem C03_F6_pinned_refuted : exists p l hdr pay d, repr p l hdr pay /\ is_byt
 Proof. exact F6_refuted. Qed.
 Print Assumptions C03_F6_pinned_refuted.
 
+(* F11, adaptation-field part: a garbage length byte makes the pinned getters and resizeAF panic; the repaired
+   code answers ErrInvalidPacketLength (and never panics: C03_total_any_packet).  corpus/C03/garbage-lengths.txt *)
+Theorem C03_F11_pinned_panics : length garbage_p = 188%nat /\ is_bytes garbage_p /\
+  AFPinned.TransportPrivateData garbage_p = Panic /\ AFPinned.AdaptationFieldExtension garbage_p = Panic /\
+  AFPinned.fnTransportPrivateData garbage_p = Panic /\
+  AFPinned.SetHasTransportPrivateData garbage_p false = Panic /\
+  AF.TransportPrivateData garbage_p = Err E.InvalidPacketLength /\
+  AF.AdaptationFieldExtension garbage_p = Err E.InvalidPacketLength /\
+  AF.SetHasTransportPrivateData garbage_p false = Err E.InvalidPacketLength.
+Proof. exact F11_af_pinned_panics. Qed.
+Print Assumptions C03_F11_pinned_panics.
+
 (* non-vacuity: a populated field next to a payload satisfies the hypotheses, and a history that removes
    populated private data, refills to capacity and is refused one byte later behaves as stated *)
 Example C03_nonvacuous :
